@@ -7,6 +7,7 @@ one.  Each snapshot is a possible post-crash disk state (kill between two
 effects; nothing is unwound).
 """
 import os
+import re
 import shutil
 import tempfile
 
@@ -325,6 +326,208 @@ def judge_snapshot(path, same_tmp, msgs, expect, where):
     return []
 
 
+# =====================================================================================
+# queue level: the real Queue drives the storage; every file-system effect is a crash point
+# =====================================================================================
+
+RETRY_LIMIT = 2          # the backoff grants two retries, the third transient failure is final
+
+_NAMED = re.compile(br'Delivery failed for:\r\n- (.*?)\r\n\r\n', re.S)
+
+
+class QRelay(Relay):
+    def __init__(self, scripts, log):
+        super(QRelay, self).__init__()
+        self.scripts = scripts          # tag -> list of outcomes
+        self.log = log                  # StateLog
+        self.n = {}
+
+    def attempt(self, envelope, attempts):
+        from slimta.relay import PermanentRelayError, TransientRelayError
+        from slimta.smtp.reply import Reply
+        tag = str(envelope.headers['X-Tag'] or '')
+        if tag not in self.scripts:
+            return None                 # a bounce: delivered
+        k = self.n.get(tag, 0)
+        self.n[tag] = k + 1
+        script = self.scripts[tag]
+        outcome = script[k] if k < len(script) else ['ok']
+        rcpts = list(envelope.recipients)
+        final = attempts + 1 > RETRY_LIMIT
+        if outcome[0] == 'ok':
+            self.log.update(tag, delivered=rcpts)
+            return None
+        if outcome[0] == 'perm':
+            self.log.update(tag, failed=rcpts)
+            raise PermanentRelayError('no', Reply('550', '5.1.1 rejected %s' % tag))
+        if outcome[0] == 'temp':
+            if final:
+                self.log.update(tag, failed=rcpts)
+            raise TransientRelayError('later', Reply('450', '4.2.0 later %s' % tag))
+        kinds = [outcome[1][i % len(outcome[1])] for i in range(len(rcpts))]
+        res = {}
+        deliv, failed = [], []
+        for r, kd in zip(rcpts, kinds):
+            if kd == 'ok':
+                res[r] = None
+                deliv.append(r)
+            elif kd == 'perm':
+                res[r] = PermanentRelayError('no', Reply('550', '5.1.1 rejected %s' % tag))
+                failed.append(r)
+            else:
+                res[r] = TransientRelayError('later', Reply('450', '4.2.0 later %s' % tag))
+                if final:
+                    failed.append(r)
+        self.log.update(tag, delivered=deliv, failed=failed)
+        return res
+
+
+class StateLog(object):
+    """What the outside world has been told so far (enqueue acknowledged, relay verdicts); a new entry per change."""
+
+    def __init__(self):
+        self.states = [{}]
+
+    def update(self, tag, acked=None, delivered=(), failed=()):
+        cur = dict((t, dict(v, delivered=set(v['delivered']), failed=set(v['failed']))) for t, v in self.states[-1].items())
+        m = cur.setdefault(tag, {'acked': False, 'delivered': set(), 'failed': set()})
+        if acked:
+            m['acked'] = True
+        m['delivered'] |= set(delivered)
+        m['failed'] |= set(failed)
+        self.states.append(cur)
+        REC.op_index = len(self.states) - 1
+
+
+def run_queue_history(spec):
+    """spec: {'msgs': [{'n':, 'sender':, 'script': [...]}, ...], 'same_tmp': bool} -> (failures, crash points, non-trivial ones)"""
+    AioFile.chunk_size = 256
+    root = tempfile.mkdtemp(prefix='vfc04q_')
+    out = []
+    same_tmp = bool(spec.get('same_tmp'))
+    try:
+        dirs = {'env': os.path.join(root, 'live', 'env'), 'meta': os.path.join(root, 'live', 'meta')}
+        for d in dirs.values():
+            os.makedirs(d)
+        if same_tmp:
+            tmpd = dirs['env']
+        else:
+            tmpd = os.path.join(root, 'live', 'tmp')
+            os.makedirs(tmpd)
+            dirs['tmp'] = tmpd
+        store = DiskStorage(dirs['env'], dirs['meta'], tmpd)
+        REC.dirs = dirs
+        REC.snaps = []
+        REC.root = os.path.join(root, 'snaps')
+        os.makedirs(REC.root)
+        log = StateLog()
+        REC.op_index = 0
+        msgs = {}
+        scripts = {}
+        for k, ms in enumerate(spec['msgs'][:3]):
+            tag = 't%d' % k
+            env = make_env(k, max(1, min(3, int(ms.get('n', 1)))), 1, bool(ms.get('sender', True)))
+            msgs[tag] = {'env': env, 'sender': env.sender, 'rcpts': list(env.recipients)}
+            scripts[tag] = [o for o in ms.get('script', [])][:6]
+        qm.CLOCK.now = 5000.0
+        qm.CLOCK.timers = []
+        relay = QRelay(scripts, log)
+        queue = Queue(store, relay, backoff=lambda envelope, attempts: 0 if attempts <= RETRY_LIMIT else None)
+        queue.start()
+        REC.active = True
+        try:
+            for tag in sorted(msgs):
+                queue.enqueue(msgs[tag]['env'])
+                log.update(tag, acked=True)
+            quiet = 0
+            for _ in range(3000):
+                gevent.idle()
+                gevent.sleep(0.001)
+                if not os.listdir(dirs['env']) and not os.listdir(tmpd if not same_tmp else dirs['meta']):
+                    quiet += 1
+                    if quiet >= 5:
+                        break
+                else:
+                    quiet = 0
+            REC.snap('end')
+        finally:
+            REC.active = False
+            queue.kill()
+            for g in qm.GSHIM.spawned:
+                if not g.dead:
+                    g.kill(block=False)
+            qm.GSHIM.spawned = []
+        nnt = 0
+        for path, si, effect in REC.snaps:
+            state = log.states[min(si, len(log.states) - 1)]
+            if any(v['failed'] for v in state.values()):
+                nnt += 1
+            f = judge_queue_snapshot(path, same_tmp, msgs, state, 'state#%d before %s' % (si, effect), spec)
+            # keep looking at the other crash points: one clause failing here must not hide another one later
+            for sig, msg in f:
+                if sig not in [s_ for s_, _ in out]:
+                    out.append((sig, msg))
+        return out, len(REC.snaps), nnt
+    finally:
+        REC.active = False
+        REC.hook = None
+        shutil.rmtree(root, ignore_errors=True)
+
+
+def judge_queue_snapshot(path, same_tmp, msgs, state, where, spec):
+    env_dir = os.path.join(path, 'env')
+    meta_dir = os.path.join(path, 'meta')
+    tmp_dir = env_dir if same_tmp else os.path.join(path, 'tmp')
+    store = DiskStorage(env_dir, meta_dir, tmp_dir)
+    stored = {}          # tag -> recipients still held by the stored original
+    bounced = {}         # tag -> set of recipients named in stored bounces
+    try:
+        ids = [i for _, i in store.load()]
+    except Exception as e:
+        return [('C04:load-raises:%s' % type(e).__name__, '%s: load() of a fresh DiskStorage raised %r' % (where, e))]
+    for i in ids:
+        try:
+            env, _ = store.get(i)
+        except Exception:
+            continue
+        tag = str(env.headers['X-Tag'] or '')
+        if tag in msgs:
+            stored[tag] = list(env.recipients)
+            continue
+        h, b = env.flatten()
+        m = re.search(br'X-Tag: (t\d+)', b)
+        n = _NAMED.search(b)
+        if env.sender == '' and m and n:
+            bounced.setdefault(m.group(1).decode(), set()).update(x.decode() for x in n.group(1).split(b'\r\n- '))
+    for tag, st_ in sorted(state.items()):
+        if not st_['acked']:
+            continue
+        m = msgs[tag]
+        for r in m['rcpts']:
+            if r in st_['delivered']:
+                continue
+            held = r in stored.get(tag, [])
+            if r in st_['failed']:
+                if not m['sender'] or held or r in bounced.get(tag, set()):
+                    continue
+                return [('C04:failed-recipient-neither-stored-nor-bounced',
+                         '%s: %s of %s failed for good (sender %s) but a crash here leaves neither the message nor a bounce for it on '
+                         'disk (stored originals %r, bounces %r); history %r' % (where, r, tag, m['sender'], stored, bounced, spec))]
+            if not held:
+                return [('C04:outstanding-recipient-lost:queue-level',
+                         '%s: %s of acknowledged message %s is neither delivered nor failed, but a crash here leaves it out of '
+                         'storage (stored originals %r); history %r' % (where, r, tag, stored, spec))]
+    return []
+
+
+_outcome_q = st.one_of(st.just(['ok']), st.just(['perm']), st.just(['temp']), st.just(['temp']),
+                       st.tuples(st.just('map'), st.lists(st.sampled_from(['ok', 'perm', 'temp']), min_size=1, max_size=3)).map(list))
+_qcase = st.fixed_dictionaries({
+    'msgs': st.lists(st.fixed_dictionaries({'n': st.integers(1, 3), 'sender': st.sampled_from([True, True, True, False]),
+                                            'script': st.lists(_outcome_q, max_size=4)}), min_size=1, max_size=2),
+    'same_tmp': st.booleans()})
+
+
 _w = st.tuples(st.just('write'), st.integers(1, 4), st.integers(1, 4), st.booleans(),
                st.sampled_from([5.0, 1000.5, 0.0])).map(list)
 _op = st.one_of(
@@ -349,8 +552,32 @@ def run_shard(ctx):
                    case=lambda: {'ops': ops, 'same_tmp': same_tmp, 'crash_points': ncrash}, failures=fails)
     hyp.drive(ctx, _case, one, ctx.n(240, 5000))
 
+    def qone(spec):
+        fails, ncrash, nnt = run_queue_history(spec)
+        for k in range(max(0, ncrash - 1)):
+            ctx.record((repr(spec), k), k < nnt, labels=['queue-level-crash-point'])
+        ctx.record((repr(spec), 'last'), nnt > 0, labels=['queue-level-history'], case=lambda: {'queue_level': spec}, failures=fails)
+    hyp.drive(ctx, _qcase, qone, ctx.n(160, 3000), salt=1)
+
 
 def replay(case):
+    if 'queue_level' in case:
+        spec = case['queue_level']
+        try:
+            msgs = []
+            for ms in spec.get('msgs', [])[:3]:
+                script = []
+                for o in ms.get('script', []):
+                    if isinstance(o, list) and o and o[0] in ('ok', 'perm', 'temp'):
+                        script.append([o[0]])
+                    elif isinstance(o, list) and len(o) == 2 and o[0] == 'map' and o[1] and all(x in ('ok', 'perm', 'temp') for x in o[1]):
+                        script.append(['map', list(o[1])])
+                msgs.append({'n': int(ms.get('n', 1)), 'sender': bool(ms.get('sender', True)), 'script': script})
+        except Exception:
+            return []
+        if not msgs:
+            return []
+        return run_queue_history({'msgs': msgs, 'same_tmp': bool(spec.get('same_tmp'))})[0]
     ops = []
     for o in case.get('ops', []):
         try:
